@@ -555,8 +555,17 @@ def typing_cast(I, t, v):
     return v
 
 
+def pytree_dataclass(I, cls=None, **kw):
+    """penzai's pytree_dataclass: the class becomes a (frozen) dataclass over its annotated fields"""
+    if isinstance(cls, ClassRef):
+        cls.ci.is_dataclass = True
+        return cls
+    raise Unsupported("pytree_dataclass as a decorator factory")
+
+
 def install(I):
     e = I.ext
+    e["penzai.pz.pytree_dataclass"] = pytree_dataclass
     for p in ("jax.numpy.where", "jax.lax.select"):
         e[p] = jnp_where
     e["jax.lax.cond"] = lax_cond
